@@ -159,6 +159,10 @@ def templates():
     t['nested associated fields (204 twice)'] = (
         [OP(204002), E(31021, 'ASSOCIATED FIELD SIGNIFICANCE', 'CODE TABLE', 6), OP(204003), E(31021, 'ASSOCIATED FIELD SIGNIFICANCE', 'CODE TABLE', 6), T(), OP(204000),
          T(12103), OP(204000), T()], [1, 2, 9, 2801, 2, 2750, 2801])
+    t['width / scale / reference changes on classes above 31 (33, 40)'] = (
+        [OP(201130), E(33007, 'PER CENT CONFIDENCE', '%', 7), E(40001, 'SURFACE SOIL MOISTURE', '%', 10, 1, -3), OP(201000), OP(202129),
+         E(40001, 'SURFACE SOIL MOISTURE', '%', 10, 1, -3), OP(202000), OP(207001), E(40001, 'SURFACE SOIL MOISTURE', '%', 10, 1, -3), E(33007, 'PER CENT CONFIDENCE', '%', 7),
+         OP(207000), E(40001, 'SURFACE SOIL MOISTURE', '%', 10, 1, -3)], [300, 2555, 556, 9557, 1500, 558])
     t['missing values'] = ([T(), E(20003, 'PRESENT WEATHER', 'CODE TABLE', 9), E(20004, 'PAST WEATHER', 'FLAG TABLE', 1), T(12103)], [None, None, 1, 2750])
     return t
 
